@@ -21,7 +21,9 @@ package main
 import (
 	"bytes"
 	"fmt"
+	"io"
 	"net/http"
+	"os"
 	"strconv"
 	"strings"
 
@@ -242,6 +244,12 @@ func runCase(line string) (out string) {
 }
 
 func main() {
+	if len(os.Args) > 1 && os.Args[1] == "child" {
+		// one engine case from stdin, observation to stdout (see runEngine)
+		in, _ := io.ReadAll(os.Stdin)
+		fmt.Println(runCase(strings.TrimSpace(string(in))))
+		return
+	}
 	vh.Main(gen, func(cases []string) []string {
 		out := make([]string, len(cases))
 		for i, c := range cases {
